@@ -5,6 +5,8 @@ CONSTANTS
   MaxObj = 3
   Configs <- AllConfigs
   Lite = FALSE
+  Hold = FALSE
+  DrainAll = TRUE
   RejectChecksSlot = TRUE
 VIEW AbsView
 CHECK_DEADLOCK FALSE
